@@ -183,8 +183,9 @@ CONTRACTS = [_mk("fresh producer", {}), _mk("producer already named", {"declared
 # =================================================================================================
 # StatementLowerer.lower_assign_stmt (C06 for `entity.prop = expr`, C20 for `name = expr`):
 #   entity.prop = expr   exactly ONE property write is added, for the entity the NAME denotes (its id in entity_refs), on that
-#                        property, carrying what expr lowers to (lowered once); `entity.enable = any/all(bundle) CMP constant` is
-#                        handed to the inlining path with that entity's id instead, and nothing else is added
+#                        property, carrying what expr lowers to (lowered once) — an INTEGER `enable` as a constant signal of that value
+#                        on a fresh type (a bare integer cannot be a circuit condition: nothing would evaluate it);
+#                        `entity.enable = any/all(bundle) CMP constant` is handed to the inlining path with that entity's id instead
 #   name = expr          the name is re-bound to what expr lowers to; a constant producer becomes a declared input, a bundle's
 #                        producer is kept; an integer becomes a declared constant node with that value
 # (assignments from calls — place(...), functions — are the entity bookkeeping path: not covered here.)
@@ -252,7 +253,14 @@ def _as_prop_post(a, res):
     if not added:
         return Not(known)
     w = added[0]
-    return And(known, not_inline, len(added) == 1, isa(w, "IREntityPropWrite"), w.entity_id == eid, w.property_name is prop, w.value is v)
+    is_int = isinstance(v, int) or (ops.is_sym(v) and z3.is_int(v))
+    if is_int and w.value is not v:
+        # an integer condition: only for `enable`, and then a constant signal of exactly that value on a fresh type (a circuit condition needs a network to be evaluated on)
+        ok = len(CONSTS) == 1 and w.value is CONSTS[0][0] and CONSTS[0][1].value is v and ops.eq(CONSTS[0][1].output_type, z3.String("fresh_implicit_type")) is not False
+        return And(known, not_inline, prop == "enable", len(added) == 1 and ok, isa(w, "IREntityPropWrite"), w.entity_id == eid, w.property_name is prop,
+                   ops.eq(CONSTS[0][1].output_type, z3.String("fresh_implicit_type")) if ok else False)
+    carried = Not(prop == "enable") if is_int else True   # ... and an integer `enable` is never written as a bare integer
+    return And(known, not_inline, carried, len(added) == 1 and not CONSTS, isa(w, "IREntityPropWrite"), w.entity_id == eid, w.property_name is prop, w.value is v)
 
 
 _VALUE_T = ty.TObj("Expr", only=("BinaryOp", "IdentifierExpr", "NumberLiteral", "SignalLiteral"))
